@@ -59,7 +59,8 @@ Qed.
 Lemma zsum_map_filter {A} (p : A -> bool) (h : A -> Z) l :
   zsum (map h (filter p l)) = zsum (map (fun x => if p x then h x else 0) l).
 Proof.
-  induction l as [|a l IH]; [reflexivity|]. simpl. destruct (p a); simpl map; rewrite !zsum_cons, IH; lia.
+  induction l as [|a l IH]; [reflexivity|]. simpl filter. simpl map.
+  destruct (p a); simpl map; rewrite ?zsum_cons, IH; lia.
 Qed.
 
 Lemma zsum_map_add {A} (h1 h2 : A -> Z) l :
@@ -69,6 +70,12 @@ Proof. induction l as [|a l IH]; [reflexivity|]. simpl map. rewrite !zsum_cons, 
 Lemma zsum_map_ext_in {A} (h1 h2 : A -> Z) l :
   (forall x, In x l -> h1 x = h2 x) -> zsum (map h1 l) = zsum (map h2 l).
 Proof. intros H. f_equal. apply map_ext_in. exact H. Qed.
+
+Lemma zsum_map_zero {A} (h : A -> Z) l : (forall x, In x l -> h x = 0) -> zsum (map h l) = 0.
+Proof.
+  induction l as [|a l IH]; intros H; [reflexivity|]. simpl map. rewrite zsum_cons.
+  rewrite (H a (or_introl eq_refl)), IH by (intros; apply H; right; assumption). reflexivity.
+Qed.
 
 Lemma zsum_map_all1 {A} (h : A -> Z) l :
   (forall x, In x l -> h x = 1) -> zsum (map h l) = Z.of_nat (length l).
@@ -157,8 +164,8 @@ Qed.
 Lemma zsum_filter_le {A} (p : A -> bool) (h : A -> Z) l :
   (forall x, 0 <= h x) -> zsum (map h (filter p l)) <= zsum (map h l).
 Proof.
-  intros Hnn. induction l as [|a l IH]; [simpl; lia|]. simpl. pose proof (Hnn a).
-  destruct (p a); simpl map; rewrite !zsum_cons; lia.
+  intros Hnn. induction l as [|a l IH]; [simpl; lia|]. simpl filter. simpl map. pose proof (Hnn a).
+  destruct (p a); simpl map; rewrite ?zsum_cons; lia.
 Qed.
 
 (* ------------------------------------------------------------------------ *)
@@ -234,9 +241,7 @@ Lemma handshake_from (f : nat -> nat -> Z) n es :
   = zsum (map (fun ab : nat * nat => f (fst ab) (snd ab) + f (snd ab) (fst ab)) es).
 Proof.
   induction es as [|[a b] r IH]; intros Hwf k0.
-  - simpl. apply (zsum_map_all1 (fun _ => 0) (seq 0 n)) with (l := []) || idtac.
-    rewrite (zsum_map_ext_in _ (fun _ => 0)) by reflexivity.
-    clear. induction (seq 0 n); [reflexivity|]. simpl map. rewrite zsum_cons, IHl. reflexivity.
+  - transitivity 0; [|reflexivity]. apply zsum_map_zero. intros; reflexivity.
   - destruct (Hwf a b (or_introl eq_refl)) as [Ha Hb].
     rewrite (zsum_map_ext_in _ (fun i =>
        (if Nat.eqb a i then (fun i => f i b) i else 0) +
@@ -246,7 +251,7 @@ Proof.
       rewrite (zsum_pick a (fun i => f i b)) by (try apply seq_NoDup; apply in_seq; lia).
       rewrite (zsum_pick b (fun i => f i a)) by (try apply seq_NoDup; apply in_seq; lia).
       rewrite IH by (intros; apply Hwf; right; assumption).
-      simpl map. rewrite zsum_cons. simpl fst; simpl snd. lia.
+      rewrite ?zsum_map_add. simpl map. rewrite !zsum_cons. simpl fst; simpl snd. lia.
     + intros i _. simpl incident_from. rewrite !map_app, !zsum_app.
       destruct (Nat.eqb a i), (Nat.eqb b i); simpl map; rewrite ?zsum_cons; simpl fst;
         unfold zsum at 1 2; simpl fold_right; lia.
@@ -389,15 +394,14 @@ Section Count.
     rewrite (zsum_map_ext_in _ (fun i => zsum (map (fun jk : nat * nat => f i (fst jk)) (incident g i)))).
     - rewrite (handshake g f Hwf). unfold induced_edges. rewrite <- zsum_b2z_count.
       apply zsum_map_ext_in. intros [a b] Hin. unfold f. simpl fst; simpl snd.
-      destruct (act a), (act b); simpl; try reflexivity.
+      destruct (act a), (act b); simpl; rewrite ?andb_false_r, ?andb_true_r; simpl; try reflexivity.
       destruct (Nat.eqb_spec a b) as [->|Hab].
       + rewrite Z.ltb_irrefl. reflexivity.
       + pose proof (Hne a b Hin Hab).
         destruct (Z.ltb_spec (rank b) (rank a)); destruct (Z.ltb_spec (rank a) (rank b)); simpl; lia.
     - intros i _. unfold lower_cnt, f. destruct (act i); simpl.
       + reflexivity.
-      + symmetry. rewrite (zsum_map_ext_in _ (fun _ => 0)) by reflexivity.
-        induction (incident g i); [reflexivity|]. simpl map. rewrite zsum_cons, IHl. reflexivity.
+      + symmetry. apply zsum_map_zero. intros; reflexivity.
   Qed.
 End Count.
 
@@ -551,9 +555,9 @@ Section Complete.
     pose proof (nth_error_index_of i c Hic) as Hnth.
     assert (Hp : (0 < index_of i c)%nat).
     { rewrite Ht. simpl. destruct (Nat.eqb_spec i s); [contradiction|lia]. }
-    destruct (component_earlier_nbr_nth g act all_edges_ok s _ _ Hnth Hp) as [q [u [Hq [Hu [_ Hn]]]]].
+    destruct (component_earlier_nbr_nth g act all_edges_ok s _ _ Hnth Hp) as [q [u [Hq [Hu [_ Hnb]]]]].
     fold c in Hu.
-    apply nbrs_incident in Hn. destruct Hn as [k [_ Hk]].
+    apply nbrs_incident in Hnb. destruct Hnb as [k [_ Hk]].
     assert (Huc : In u c) by (eapply nth_error_In; exact Hu).
     assert (Hqi : index_of u c = q) by (apply index_of_nth; [apply component_nodup|exact Hu]).
     assert (1 <= lower_cnt g act rank i); [|lia].
@@ -605,7 +609,7 @@ Section Complete.
             rewrite Hf in Hx. destruct Hx. }
           rewrite Hz. reflexivity.
         + assert (Hx : In x (filter act (seq 0 (nv g)))) by (rewrite Hf; left; reflexivity).
-          rewrite <- Hf. rewrite <- Hf in Hx.
+          rewrite <- Hf.
           assert (Hs : In s (filter act (seq 0 (nv g)))).
           { apply filter_In in Hx. destruct Hx as [Hx Hax]. apply in_seq in Hx.
             apply filter_In. split; [apply in_seq; pose proof avc_start_lt; lia|].
